@@ -7,6 +7,7 @@
 //                                            output; print the files left behind
 //   os fault <k> <kind> <persist> <session>  the k-th write/writev on an output fails (kind: enospc | eio | short), and
 //                                            every later one too if persist = 1; print API results + files
+//                                            (kind any-<kind>: on whichever output, not only the first)
 //   answer: I <api results> | T <trace> | F <file>=<hex> ...     (trace/files as applicable; N=<count of tracked calls>)
 #include "common.h"
 #include <dlfcn.h>
@@ -38,6 +39,7 @@ struct Cfg {
     int fault_at = -1;
     int fault_kind = 0;         // 1 enospc, 2 eio, 3 short
     bool persist = false;
+    bool any_output = false;    // faults hit whichever output the k-th call goes to (default: the first output only)
     int count = 0;              // tracked write/writev/rename calls so far
     int faults_fired = 0;
     bool tracing = false;
@@ -89,7 +91,7 @@ int on_data_call(int fd, size_t total, const char* what) {
     cfg.count++;
     if (cfg.crash_at > 0 && cfg.count == cfg.crash_at) _exit(0);
     if (cfg.tracing) cfg.trace += std::string(what) + ":" + base(path) + ":" + std::to_string(total) + ",";
-    if (cfg.fault_at > 0 && output_index(path) == 0 && (cfg.count == cfg.fault_at || (cfg.persist && cfg.count > cfg.fault_at))) {
+    if (cfg.fault_at > 0 && (cfg.any_output || output_index(path) == 0) && (cfg.count == cfg.fault_at || (cfg.persist && cfg.count > cfg.fault_at))) {
         cfg.faults_fired++;
         if (cfg.fault_kind == 3 && total > 1) return 2;
         errno = cfg.fault_kind == 2 ? EIO : ENOSPC;
@@ -201,7 +203,9 @@ int vh::run_os(int, char**) {
             cfg.tracing = true;
             if (mode == "fault") {
                 cfg.fault_at = std::atoi(a[2].c_str());
-                cfg.fault_kind = a[3] == "eio" ? 2 : a[3] == "short" ? 3 : 1;
+                std::string kind = a[3];
+                if (kind.rfind("any-", 0) == 0) { cfg.any_output = true; kind = kind.substr(4); }
+                cfg.fault_kind = kind == "eio" ? 2 : kind == "short" ? 3 : 1;
                 cfg.persist = a[4] == "1";
             }
             cfg.active = true;
